@@ -1307,7 +1307,18 @@ func (p *Printer) command(cmd Command, redirs []*Redirect) (startRedirs int) {
 			// leave p.nestedBinary untouched
 			p.spacedToken(cmd.Op.String(), cmd.OpPos)
 			p.advanceLine(cmd.Y.Pos().Line())
+			// Like in stmtList, but the statement begins on this line,
+			// so all of its comments are inside or after its command.
+			var endComs []Comment
+			for _, c := range cmd.Y.Comments {
+				if cmd.Y.Cmd != nil && c.End().After(cmd.Y.Cmd.End()) {
+					endComs = append(endComs, c)
+					break
+				}
+				p.comments(c)
+			}
 			p.stmt(cmd.Y)
+			p.comments(endComs...)
 			break
 		}
 		indent := !p.nestedBinary
